@@ -15,6 +15,7 @@ import itertools
 
 from armlib import last_seg
 from db import callee, int_lit, pat_leaves, pat_path, walk
+import bitprov
 import ilshape
 import lifters
 import tables
@@ -130,29 +131,67 @@ def r1(db, rep):
     g = db.hir.get("translator::aarch64::register::AArch64Register::get")
     s = db.hir.get("translator::aarch64::register::AArch64Register::set")
     rep.anchor(g is not None and s is not None, "AArch64Register::get / set")
-    zero_ids = set()
-    zero_const = False
-    first_if = next((n for n in walk(g["body"]) if n.get("k") == "If"), None)
-    if first_if is not None:
-        for n in walk(first_if["c"]):
-            if n.get("k") == "Match":
-                for a in n["arms"]:
-                    for leaf in pat_leaves(a["pat"]):
-                        p = pat_path(leaf)
-                        if p:
-                            lit = [x for x in walk(a["body"]) if x.get("k") == "Lit"]
-                            if lit and lit[0]["v"].get("bool") is True:
-                                zero_ids.add(last_seg(p))
-        for n in walk(first_if["then"]):
-            if callee(n) == "il::expr_const" and int_lit(n["args"][0]) == 0:
-                zero_const = True
-    r.decide(zero_ids == {"XZR", "WZR"} and zero_const, "get|zero_registers", db.where(g),
-             "get() must return expr_const(0, bits) for exactly {XZR, WZR}; it tests %s" % sorted(zero_ids))
-    ext = {last_seg(callee(n) or "") for n in walk(s["body"]) if (callee(n) or "").startswith("il::expression::Expression::")}
-    r.decide("zext" in ext and not (ext & {"sext", "trun"}), "set|zero_extends", db.where(s),
-             "set() must widen a short value with zext only (32-bit writes clear the upper half); it uses %s" % sorted(ext))
-    asg = [n for n in walk(s["body"]) if n.get("k") == "MethodCall" and n["name"] == "assign"]
-    r.decide(len(asg) == 1, "set|assigns_full", db.where(s), "set() must assign the full register's scalar once")
+    # get()/set() are evaluated per table row (abstract interpretation + bit provenance), so the verdict does not depend
+    # on how the two functions are written
+    sh = ilshape.Shape(db)
+    G, S = "translator::aarch64::register::AArch64Register::get", "translator::aarch64::register::AArch64Register::set"
+    zero_ids, bad_get, n_get = set(), [], 0
+    by = {last_seg(x["bad64_reg"]): x for x in rows}
+    for rid, rs in sorted(ids.items()):
+        row = rs[0]
+        full = by.get(last_seg(row["bad64_full_reg"]))
+        if full is None or not isinstance(row["bits"], int):
+            continue
+        res = sh.run(G, args={0: ("regrow", row)})
+        got = bitprov.bits(res.ret) if ilshape.is_il(res.ret) else None
+        n_get += 1
+        if got is not None and len(got) == row["bits"] and all(x == 0 for x in got):
+            zero_ids.add(rid)
+            continue
+        src = "scalar:%s" % row["name"] if full is row else "reg:%s" % last_seg(row["bad64_full_reg"])
+        if got != [(src, i) for i in range(row["bits"])]:
+            bad_get.append("%s.get() = %s" % (rid, bitprov.show(got) if got is not None else "?"))
+    rep.anchor(n_get >= 300, "register rows evaluated through get() (%d)" % n_get)
+    r.decide(zero_ids == {"XZR", "WZR"}, "get|zero_registers", db.where(g),
+             "get() must return constant zero for exactly {XZR, WZR}; it does for %s" % sorted(zero_ids))
+    r.decide(not bad_get, "get|low_bits_of_full", db.where(g),
+             "get() must yield the register's own scalar (full rows) or the low bits of its full register: %s" % "; ".join(bad_get[:4]))
+    bad_set, bad_asg, n_set = [], [], 0
+    sub_widths = {}
+    for rid, rs in ids.items():
+        sub_widths.setdefault(last_seg(rs[0]["bad64_full_reg"]), set()).add(rs[0]["bits"])
+    for rid, rs in sorted(ids.items()):
+        row = rs[0]
+        full = by.get(last_seg(row["bad64_full_reg"]))
+        if full is None or not isinstance(row["bits"], int):
+            continue
+        if full is row:
+            for w in sorted(x for x in sub_widths.get(rid, {row["bits"]}) if isinstance(x, int) and x <= row["bits"]):
+                res = sh.run(S, args={0: ("regrow", row), 2: ilshape.opaque(w, "value")})
+                asg = [o for o in res.ops if o["kind"] == "Assign"]
+                n_set += 1
+                if len(asg) != 1 or asg[0].get("dst") != row["name"] or asg[0].get("dw") != row["bits"]:
+                    bad_asg.append("%s.set(%d-bit) assigns %s" % (rid, w, [(o.get("dst"), o.get("dw")) for o in asg]))
+                    continue
+                got = bitprov.bits(asg[0]["src"])
+                want = [("value", i) if i < w else 0 for i in range(row["bits"])]
+                if got != want:
+                    bad_set.append("%s.set(%d-bit v) = %s" % (rid, w, bitprov.show(got) if got is not None else "?"))
+        else:
+            res = sh.run(S, args={0: ("regrow", row), 2: ilshape.opaque(row["bits"], "value")})
+            asg = [o for o in res.ops if o["kind"] == "Assign"]
+            n_set += 1
+            # a narrow register delegates to its full register's set with the value unchanged
+            if len(asg) != 1 or asg[0].get("dst") != full["name"] or asg[0].get("via") != "AArch64Register::set":
+                bad_asg.append("%s.set assigns %s" % (rid, [(o.get("dst"), o.get("via")) for o in asg]))
+                continue
+            got = bitprov.bits(asg[0]["src"])
+            if got != [("value", i) for i in range(row["bits"])]:
+                bad_set.append("%s.set(v) hands %s to its full register" % (rid, bitprov.show(got) if got is not None else "?"))
+    rep.anchor(n_set >= 300, "register rows evaluated through set() (%d)" % n_set)
+    r.decide(not bad_set, "set|zero_extends", db.where(s),
+             "set() must put the value in the low bits and clear the rest (32-bit writes clear the upper half): %s" % "; ".join(bad_set[:4]))
+    r.decide(not bad_asg, "set|assigns_full", db.where(s), "set() must assign the full register's scalar once: %s" % "; ".join(bad_asg[:4]))
     r.floor(300, "register rows")
 
 
